@@ -2,13 +2,18 @@ import QiVerif.Driver.Util
 import QiVerif.Driver.C01
 import QiVerif.Driver.C20
 import QiVerif.Driver.C19
+import QiVerif.Driver.C16
 open QiVerif.Driver
 
 /-- parameters handed over by ./check from the regenerated constants -/
 structure Params where
   maxPayload : Nat := 10485760
 
-def dispatch (p : Params) (line : String) : String :=
+/-- state of the stateful op streams (each has an explicit reset op) -/
+structure DState where
+  svc : QiVerif.Service.Svc := {}
+
+def dispatch (p : Params) (st : DState) (line : String) : DState × String :=
   let ws := words line
   -- drop the class tag
   let ws := match ws with
@@ -16,21 +21,25 @@ def dispatch (p : Params) (line : String) : String :=
     | "X" :: r => r
     | r => r
   match ws with
-  | [] => "bad-op"
+  | [] => (st, "bad-op")
   | op :: _ =>
-    if op.startsWith "msg." then C01.run p.maxPayload ws
-    else if op.startsWith "conv" then C20.run ws
-    else if op.startsWith "session." then C19.run ws
-    else "bad-op"
+    if op.startsWith "msg." then (st, C01.run p.maxPayload ws)
+    else if op.startsWith "conv" then (st, C20.run ws)
+    else if op.startsWith "session." then (st, C19.run ws)
+    else if op.startsWith "svc." then
+      let (s', out) := C16.run st.svc ws
+      ({ st with svc := s' }, out)
+    else (st, "bad-op")
 
-partial def loop (p : Params) (h : IO.FS.Stream) (out : IO.FS.Stream) : IO Unit := do
+partial def loop (p : Params) (st : DState) (h : IO.FS.Stream) (out : IO.FS.Stream) : IO Unit := do
   let line ← h.getLine
   if line.isEmpty then return ()
-  out.putStrLn (dispatch p (line.dropEndWhile (· == '\n')).toString)
-  loop p h out
+  let (st', res) := dispatch p st (line.dropEndWhile (· == '\n')).toString
+  out.putStrLn res
+  loop p st' h out
 
 def main (args : List String) : IO Unit := do
   let p : Params := match args with
     | [m] => { maxPayload := m.toNat! }
     | _ => {}
-  loop p (← IO.getStdin) (← IO.getStdout)
+  loop p {} (← IO.getStdin) (← IO.getStdout)
